@@ -26,7 +26,7 @@ def body():
     chk.assume(
         "|exp(ikr)-1-ikr| <= |k|^2 r^2 / 2 * e^{|Im k| r} and |d/dn (exp(ikr)-1)/r| <= |k|^2 pointwise, so the entrywise bounds hold for any positive-weight "
         "quadrature when |k| D <= 1 (stated by the property, evaluated here)",
-        "symmetry clauses (V = V^T, W = W^T, K' = K^T) are quadrature-limited: judged in the thorough tier at singular order 8 against 1e-6, recorded otherwise",
+        "symmetry clauses (V = V^T, W = W^T, K' = K^T) are quadrature-limited: judged at orders (8,8) against 1e-6 (quick: on the octahedron only), recorded at (4,4)",
     )
     quick = chk.tier == "quick"
     res = common.run_tlc("Catalogue", "Catalogue.cfg", timeout=600)
@@ -92,6 +92,26 @@ def body():
                     A, R = op.evaluate(f), getattr(pot.modified_helmholtz, name)(P1, pts, w).evaluate(f)
                 if np.abs(A - R).max() > 1e-13 * np.abs(R).max():
                     chk.violation("imaginary_k:%s" % site, "%s differs from modified_helmholtz(w=%s) by %.3g" % (label, w, np.abs(A - R).max() / np.abs(R).max()), {"obligation": ob})
+                # every optional argument reaches the routed factory: an explicit parameter object with other orders than the global ones,
+                # an explicit assembler and precision give exactly what the modified Helmholtz factory gives for the same arguments
+                if "parameters" in ob["forwards"]:
+                    from bempp_cl.api.utils.parameters import DefaultParameters
+
+                    Pq = DefaultParameters()
+                    Pq.quadrature.regular, Pq.quadrature.singular = 2, 3
+                    if site.startswith("boundary"):
+                        kw = dict(parameters=Pq, assembler="dense", precision="double")
+                        Ap = (getattr(b.helmholtz, name)(P1, P1, P1, k, **kw) if name == "hypersingular" else getattr(b.helmholtz, name)(P1, D0, D0, k, **kw)).weak_form().to_dense()
+                        Rp = (getattr(b.modified_helmholtz, name)(P1, P1, P1, w, **kw) if name == "hypersingular" else getattr(b.modified_helmholtz, name)(P1, D0, D0, w, **kw)).weak_form().to_dense()
+                    else:
+                        kw = dict(parameters=Pq, assembler="dense", precision="double")
+                        Ap, Rp = getattr(pot.helmholtz, name)(P1, pts, k, **kw).evaluate(f), getattr(pot.modified_helmholtz, name)(P1, pts, w, **kw).evaluate(f)
+                    chk.count(label + " explicit arguments", True)
+                    if np.abs(Rp - R).max() <= 1e-9 * np.abs(R).max():
+                        raise common.MachineryError("orders (2,3) give the same numbers as the global orders: the forwarding test is vacuous")
+                    if np.abs(Ap - Rp).max() > 1e-13 * np.abs(Rp).max():
+                        chk.violation("forwarding:%s" % site, "%s with an explicit parameter object (orders 2,3), assembler and precision differs from modified_helmholtz(w=%s) with the same arguments by %.3g: an optional argument is not handed on" % (
+                            label, w, np.abs(Ap - Rp).max() / np.abs(Rp).max()), {"obligation": ob})
                 # limit of a vanishing real part
                 eps = 1e-7
                 if site.startswith("boundary"):
@@ -150,8 +170,8 @@ def body():
                         chk.violation("conjugation:hypersingular", "%s: hypersingular(-conj k) differs from the conjugate" % label, {})
         # symmetry clauses (thorough: judged at order 8)
         sym = {}
-        for order, judged in (((4, 4), False), ((8, 8), not quick)):
-            if quick and order == (8, 8):
+        for order, judged in (((4, 4), False), ((8, 8), True)):
+            if quick and gname != "OCT/3" and order == (8, 8):
                 continue
             par.quadrature.regular, par.quadrature.singular = order
             k = 0.3 + 0.2j
